@@ -99,6 +99,15 @@ Proof.
   eapply Forall2_impl; [|exact Hst]. intros x y. apply gbb_weak.
 Qed.
 
+Theorem grid_total_box_sizing_blind s s' st st' i i' :
+  gbb_rel s s' -> Forall2 gbb_rel st st' -> fin_rel 1 i i' ->
+  grid_no_panic s' st' i' = grid_no_panic s st i /\ GAlgRel 1 (grid_alg_total s st i) (grid_alg_total s' st' i').
+Proof.
+  intros Hs Hst Hi. split; [|apply grid_alg_total_box_sizing_blind; assumption].
+  apply (grid_no_panic_wrel 1 Q01); [apply gbb_weak; exact Hs| |exact Hi].
+  eapply Forall2_impl; [|exact Hst]. intros x y. apply gbb_weak.
+Qed.
+
 (* ------------------------------------------------------------------------------------------------ one style relation *)
 (* a node and its rewrite: the measure function must not distinguish equal rationals (premise of C12_leaf) *)
 Definition ts_ok (s : TStyle XQ) : Prop := measure_respects_xeq (ts_measure s).
